@@ -23,3 +23,33 @@ Definition spec_word (o : op) : list Z :=
   | None => [0]
   end.
 Definition spec_all_words : list Z := map word_of all_valid_instrs.
+
+(* ---- the documented meaning of a pseudo-operation, by class (for the C03 oracle) ------------ *)
+From Hera.Spec Require Import PseudoSpec.
+Definition regbranch_cond (c : opname) : option cond :=
+  match c with
+  | O_BR => Some cBR | O_BL => Some cBL | O_BGE => Some cBGE | O_BLE => Some cBLE | O_BG => Some cBG
+  | O_BULE => Some cBULE | O_BUG => Some cBUG | O_BZ => Some cBZ | O_BNZ => Some cBNZ | O_BC => Some cBC
+  | O_BNC => Some cBNC | O_BS => Some cBS | O_BNS => Some cBNS | O_BV => Some cBV | O_BNV => Some cBNV
+  | _ => None
+  end.
+Definition pseudo_spec (o : op) (s : vm) : option vm :=
+  match o_cls o, o_toks o with
+  | O_SET, [mktok T_REGISTER (PI d); mktok T_INT (PI v)] => Some (ps_SET d v s)
+  | O_SETRF, [mktok T_REGISTER (PI d); mktok T_INT (PI v)] => Some (ps_SETRF d v s)
+  | O_MOVE, [mktok T_REGISTER (PI a); mktok T_REGISTER (PI b)] => Some (ps_MOVE a b s)
+  | O_CMP, [mktok T_REGISTER (PI a); mktok T_REGISTER (PI b)] => Some (ps_CMP a b s)
+  | O_NEG, [mktok T_REGISTER (PI d); mktok T_REGISTER (PI a)] => Some (ps_NEG d a s)
+  | O_NOT, [mktok T_REGISTER (PI d); mktok T_REGISTER (PI a)] =>
+      if a =? 11 then None else Some (ps_NOT d a s)
+  | O_FLAGS, [mktok T_REGISTER (PI a)] => Some (ps_FLAGS a s)
+  | O_CON, [] => Some (ps_CON s) | O_COFF, [] => Some (ps_COFF s)
+  | O_CBON, [] => Some (ps_CBON s) | O_CCBOFF, [] => Some (ps_CCBOFF s)
+  | O_HALT, [] => Some (ps_HALT s) | O_NOP, [] => Some (ps_NOP s)
+  | O_CALL, [mktok T_REGISTER (PI a); mktok T_INT (PI l)] =>
+      if (a =? 13) || (a =? 14) then None else Some (ps_CALL a l s)
+  | c, [mktok T_INT (PI l)] =>
+      match regbranch_cond c with Some k => Some (ps_BRANCH k l s) | None => None end
+  | _, _ => None
+  end.
+Definition enc_opt_vm (o : option vm) : list Z := match o with Some s => 0 :: enc_vm s | None => [1; 11; 0] end.
